@@ -3,7 +3,7 @@ runtime objects that only ever appears under quantifiers and as the first argume
 (no function returns O: the O-part of every query is in the EPR fragment)."""
 import z3
 from pyvc.dsl import REG, spec_function
-from pyvc.core import S_bool, Sym, V, O, K, IntS, BoolS, fresh, CLASSES, typeof, sub
+from pyvc.core import S_bool, Sym, V, O, K, IntS, BoolS, fresh, CLASSES, typeof, sub, NONE
 from pyvc import seqs as Q
 from pyvc.values import as_seq, box, isa
 
@@ -76,6 +76,13 @@ def value_axioms(used):
         ax.append(z3.ForAll([v], z3.Implies(static_f(v), sub(typeof(v), CLASSES.const("Value"))), patterns=[static_f(v)]))
     if "CanAssignError" in used:
         ax.append(z3.ForAll([v], z3.Implies(static_f(v), z3.Not(sub(typeof(v), CLASSES.const("CanAssignError")))), patterns=[static_f(v)]))
+    if "UnboundMethodValue" in used:
+        # documented leniency L4: an UnboundMethodValue with a secondary attribute is accepted anywhere; not static
+        from pyvc.values import fld as _fld
+        ax.append(z3.ForAll([v], z3.Implies(static_f(v), z3.Not(z3.And(sub(typeof(v), CLASSES.const("UnboundMethodValue")), _fld("secondary_attr_name")(v) != NONE))), patterns=[static_f(v)]))
+    for gradual in ("TypeVarValue",):
+        if gradual in used:
+            ax.append(z3.ForAll([v], z3.Implies(static_f(v), z3.Not(sub(typeof(v), CLASSES.const(gradual)))), patterns=[static_f(v)]))
     if "MultiValuedValue" in used:
         # static values are well-formed (unions never nested: constructor invariant) and contain no unreachable-Any
         from pyvc.core import unS, unB
@@ -110,6 +117,16 @@ REG.axiom_hooks.append(value_axioms)
 from pyvc.core import unS
 from pyvc.values import fld, uf
 
+def union_like_t(x):
+    mvv = CLASSES.const("MultiValuedValue")
+    return z3.Or(typeof(x) == mvv, z3.And(typeof(x) == CLASSES.const("AnnotatedValue"), typeof(fld("value")(x)) == mvv))
+
+
+
+lit_f = z3.Function("lit", O, V, BoolS)                  # runtime object o is the literal x (identical, or equal with the same type)
+same_lit_f = z3.Function("same_lit", V, V, BoolS)        # two literal objects: same type and ==
+
+
 md_ok_f = z3.Function("md_ok", O, V, BoolS)      # o satisfies the metadata sequence (boxed tuple)
 ext_ok_f = z3.Function("ext_ok", O, V, BoolS)    # o satisfies one metadata item
 
@@ -124,6 +141,13 @@ def union_axioms(used):
         ax.append(z3.ForAll([v, o], z3.Implies(typeof(v) == CLASSES.const("MultiValuedValue"),
                                               mem_f(o, v) == z3.Exists([i], z3.And(0 <= i, i < Q.slen(vals), mem_f(o, Q.at(vals, i))))),
                             patterns=[mem_f(o, v)]))
+    if "MultiValuedValue" in used:
+        # class invariant of the frozen dataclass MultiValuedValue: never nested.  Established by its only
+        # constructor path (kernel MultiValuedValue.__post_init__#post.never_nested, proved under C14) and
+        # assumed for every instance elsewhere.
+        vals = unS(fld("vals")(v))
+        ax.append(z3.ForAll([v, i], z3.Implies(z3.And(typeof(v) == CLASSES.const("MultiValuedValue"), 0 <= i, i < Q.slen(vals)),
+                                              z3.Not(union_like_t(Q.at(vals, i)))), patterns=[Q.at(vals, i)]))
     if "AnnotatedValue" in used:
         ax.append(z3.ForAll([v, o], z3.Implies(typeof(v) == CLASSES.const("AnnotatedValue"),
                                               mem_f(o, v) == z3.And(mem_f(o, fld("value")(v)), md_ok_f(o, fld("metadata")(v)))),
@@ -131,6 +155,15 @@ def union_axioms(used):
         md = unS(v)
         ax.append(z3.ForAll([v, o], md_ok_f(o, v) == z3.ForAll([i], z3.Implies(z3.And(0 <= i, i < Q.slen(md)), ext_ok_f(o, Q.at(md, i)))),
                             patterns=[md_ok_f(o, v)]))
+    if "KnownValue" in used:
+        # gamma(KnownValue(x)) = the runtime objects that are the literal x (identical, or == with the same type);
+        # `same_lit` (same type and ==) is an equivalence on literals that preserves `lit` -- the property's
+        # hypothesis "equality with the tested literals implies equal type, no user __eq__"
+        x, y = z3.Const("lx", V), z3.Const("ly", V)
+        ax.append(z3.ForAll([v, o], z3.Implies(sub(typeof(v), CLASSES.const("KnownValue")), mem_f(o, v) == lit_f(o, fld("val")(v))), patterns=[mem_f(o, v)]))
+        ax.append(z3.ForAll([x, y, o], z3.Implies(z3.And(same_lit_f(x, y), lit_f(o, x)), lit_f(o, y)), patterns=[z3.MultiPattern(same_lit_f(x, y), lit_f(o, x))]))
+        ax.append(z3.ForAll([x, y], same_lit_f(x, y) == same_lit_f(y, x), patterns=[same_lit_f(x, y)]))
+        ax.append(z3.ForAll([x], same_lit_f(x, x), patterns=[same_lit_f(x, x)]))
     # equal values have equal meaning
     from pyvc.core import pyeq
     a, b = z3.Const("ea", V), z3.Const("eb", V)
@@ -156,11 +189,6 @@ def wf_union(ex, st, v):
     ex.note_class("AnnotatedValue")
     return S_bool(z3.Implies(typeof(t) == CLASSES.const("MultiValuedValue"),
                              z3.ForAll([i], z3.Implies(z3.And(0 <= i, i < Q.slen(vals)), z3.Not(union_like_t(Q.at(vals, i)))))))
-
-
-def union_like_t(x):
-    mvv = CLASSES.const("MultiValuedValue")
-    return z3.Or(typeof(x) == mvv, z3.And(typeof(x) == CLASSES.const("AnnotatedValue"), typeof(fld("value")(x)) == mvv))
 
 
 @spec_function()
@@ -202,3 +230,22 @@ def flat_member(ex, st, m, v):
         z3.And(typeof(vt) == mvv, z3.Exists([i], z3.And(0 <= i, i < Q.slen(vals), mt == Q.at(vals, i)))),
         z3.And(typeof(vt) == CLASSES.const("AnnotatedValue"), typeof(fld("value")(vt)) == mvv,
                z3.Exists([i], z3.And(0 <= i, i < Q.slen(ivals), mt == ann(Q.at(ivals, i), fld("metadata")(vt)))))))
+
+
+@spec_function()
+def is_bounds_map(ex, st, v):
+    """the value is a dict (a BoundsMap), i.e. not a CanAssignError"""
+    t = box(v, st)
+    return S_bool(typeof(t) == CLASSES.const("dict"))
+
+
+@spec_function()
+def pair_in(ex, st, k, s):
+    return S_bool(Q.Contains(as_seq(s, st), box(k, st)))
+
+
+@spec_function()
+def same_literal_key(ex, st, key, kv):
+    """the (val, type) key of the fast path denotes the literal of KnownValue kv"""
+    k = unS(box(key, st))
+    return S_bool(same_lit_f(Q.at(k, 0), fld("val")(box(kv, st))))
